@@ -59,6 +59,12 @@ def run(ck):
         else:
             p["n_1"], p["n_2"] = rng.uniform(1.0, 3.0), rng.uniform(0.8, 2.0)
         cases.append({"renderer": ["fourier", "hybrid", "pixel"][(i // 2) % 3], "profile": prof, "N": N, "params": p, "psf": "gauss", "fwhm": rng.uniform(2.5, 4.0), "half_light": False})
+    for i in range(1 if quick else 6):
+        N = 64
+        p = {"xc": N / 2 + rng.uniform(1.0, 3.0), "yc": N / 2 - rng.uniform(1.0, 3.0), "flux": 100.0, "f_ps": rng.uniform(0.3, 0.6), "r_eff": rng.uniform(2.0, N / 12),
+             "n": rng.uniform(0.8, 2.5), "ellip": rng.uniform(0.3, 0.7), "theta": rng.uniform(0, 6.28)}
+        cases.append({"renderer": ["fourier", "hybrid", "pixel"][(i + ck.seed) % 3], "profile": "sersic_pointsource", "N": N, "params": p, "psf": "gauss", "fwhm": rng.uniform(2.5, 4.0),
+                      "half_light": False, "centroid_only": True})
     ck.log("implementation: %d renderings vs the reference renderer" % len(cases))
     import concurrent.futures as cf
     nsh = min(6, vlib.NCPU)
